@@ -43,6 +43,7 @@ Violation keys (stable): execute:sp-leak-per-call, execute:sp-leak-after-error, 
 execute:reinitialises-globals, execute:relative-stack-use-grows, execute:peak-exceeds-first-call,
 execute:differs-from-fresh-vm-replay:{result,output,diagnostic}, execute:pure-call-differs-from-first-call:*,
 execute:call-differs-from-primed-fresh-vm:*, execute:runtime-message-names-last-compiled-source,
+execute:runtime-diagnostic-line-depends-on-earlier-call,
 execute:result-differs-from-reference-semantics, execute:unexplained-exit, compile:ret-depends-on-history,
 compile:line_no-not-reset, compile:diagnostics-depend-on-history, compile:code-depends-on-history,
 compile_file:missing-file-diagnostic-depends-on-history, isolation:<op>-changes-other-{program,vm},
@@ -660,6 +661,15 @@ def matches_reference(ref, b):
     return c == ref[0]
 
 
+def stale_line_finding(n, v, entry, args, b, solo, other):
+    """same return code, result, output and message text, but the line number in the run-time diagnostic (stderr and
+    prog->msg_array) differs: it is the VM's line_no register, left by whatever call ran before"""
+    return finding("execute:runtime-diagnostic-line-depends-on-earlier-call",
+                   "call #%d on VM %d (%s %s) reported %r; %s, holding the same globals, reports %r: the line number is "
+                   "the line_no register left behind by the previous call" % (
+                       n + 1, v, entry, " ".join(args), b.err.strip(), other, solo.err.strip()), at_op=b.idx)
+
+
 def finding(key, what, **kw):
     d = {"key": key, "what": what}
     d.update(kw)
@@ -848,6 +858,8 @@ def evaluate(env, hist, want=None):
                 break
             if spec["pure"] and src != "initfail":
                 solo = get_solo_call(env, src, entry, args, mode=mode)
+                if solo is not None and exec_obs(b, True) == exec_obs(solo, True) and exec_obs(b) != exec_obs(solo):
+                    F.append(stale_line_finding(n, v, entry, args, b, solo, "the first call on a fresh VM"))
                 if solo is not None and exec_obs(b, True) != exec_obs(solo, True):
                     F.append(finding(obs_diff_key(exec_obs(b, True), exec_obs(solo, True), "execute:pure-call-differs-from-first-call")[0],
                                      "call #%d on VM %d (%s %s) of a program without global effects gave %s, the first call on "
@@ -858,6 +870,8 @@ def evaluate(env, hist, want=None):
                 state = prevb[0].res.split(" ")[1]
                 solo = get_solo_call(env, src, entry, args, pre=(spec["state"][1], ("i:" + state,)), mode=mode)
                 stats["primed"] += 1
+                if solo is not None and exec_obs(b, True) == exec_obs(solo, True) and exec_obs(b) != exec_obs(solo):
+                    F.append(stale_line_finding(n, v, entry, args, b, solo, "a fresh VM primed with set(%s)" % state))
                 if solo is not None and exec_obs(b, True) != exec_obs(solo, True):
                     F.append(finding(obs_diff_key(exec_obs(b, True), exec_obs(solo, True), "execute:call-differs-from-primed-fresh-vm")[0],
                                      "call #%d on VM %d (%s %s) with global state %s gave %s; a fresh VM primed with set(%s) gives %s" % (
